@@ -23,6 +23,7 @@ import (
 	"strings"
 
 	"golang.org/x/tools/go/packages"
+	"golang.org/x/tools/go/ssa"
 )
 
 func strLit(pkg *packages.Package, e ast.Expr) (string, bool) {
@@ -122,13 +123,13 @@ func ruleWKTTables(c *Ctx) {
 	}
 	// ---- reader ----
 	type rrow struct {
-		lit     string
-		fn      string
-		kind    string
-		offset  int64
-		hasOff  bool
-		empty   string
-		pos     token.Pos
+		lit    string
+		fn     string
+		kind   string
+		offset int64
+		hasOff bool
+		empty  string
+		pos    token.Pos
 	}
 	var dispatch []*rrow
 	parserOf := map[string]*ast.FuncDecl{}
@@ -334,4 +335,85 @@ func ruleWKTTables(c *Ctx) {
 		})
 	}
 	c.R.Floor("T4-parsefloat", npf, 2)
+}
+
+// T4b — the typed WKT entry points look at trimmed text only: in every
+// exported Unmarshal* function of encoding/wkt, the text handed to the keyword
+// test (upperPrefix) and to the kind's parser has passed through trimSpace
+// (the seven entry points are siblings: one that tests the raw argument rejects
+// its own kind when the text starts with a blank).
+func ruleWKTTrimFirst(c *Ctx) {
+	p := c.P
+	c.R.Rule("T4b: in every exported encoding/wkt.Unmarshal* the string handed to upperPrefix and to the unexported parsers is derived from a trimSpace call, never the raw parameter")
+	n := 0
+	for _, fn := range p.FuncsIn(orbPath + "/encoding/wkt") {
+		if fn.Parent() != nil || fn.Object() == nil || !fn.Object().Exported() || !strings.HasPrefix(fn.Name(), "Unmarshal") || len(fn.Params) == 0 {
+			continue
+		}
+		if b, ok := fn.Params[0].Type().Underlying().(*types.Basic); !ok || b.Kind() != types.String {
+			continue
+		}
+		key := ShortKey(FuncKey(fn))
+		for _, blk := range fn.Blocks {
+			for _, in := range blk.Instrs {
+				call, ok := in.(*ssa.Call)
+				if !ok {
+					continue
+				}
+				callee := call.Call.StaticCallee()
+				if callee == nil || callee.Pkg != fn.Pkg || len(call.Call.Args) == 0 {
+					continue
+				}
+				if strings.EqualFold(callee.Name(), "trimSpace") {
+					continue
+				}
+				if b, ok := call.Call.Args[0].Type().Underlying().(*types.Basic); !ok || b.Kind() != types.String {
+					continue
+				}
+				n++
+				cons := fmt.Sprintf("%s->%s", key, callee.Name())
+				// backward slice of the text argument: a trim call must be met before the raw parameter
+				raw := false
+				seen := map[ssa.Value]bool{}
+				var walk func(v ssa.Value)
+				walk = func(v ssa.Value) {
+					if seen[v] {
+						return
+					}
+					seen[v] = true
+					switch x := v.(type) {
+					case *ssa.Parameter:
+						raw = true
+					case *ssa.Call:
+						if cal := x.Call.StaticCallee(); cal != nil && strings.Contains(strings.ToLower(cal.Name()), "trimspace") {
+							return
+						}
+						// some other derivation (a helper): follow its string arguments
+						for _, a := range x.Call.Args {
+							if b, ok := a.Type().Underlying().(*types.Basic); ok && b.Kind() == types.String {
+								walk(a)
+							}
+						}
+					case *ssa.Slice:
+						walk(x.X)
+					case *ssa.Phi:
+						for _, e := range x.Edges {
+							walk(e)
+						}
+					case *ssa.Extract:
+						walk(x.Tuple)
+					case *ssa.Convert:
+						walk(x.X)
+					}
+				}
+				walk(call.Call.Args[0])
+				if raw {
+					c.R.Bad("T4b-trim-first", cons, p.InstrPos(call), "the text given to "+callee.Name()+" is the raw argument, not its trimmed form: text of the function's own kind that starts with a blank is rejected or mis-sliced")
+				} else {
+					c.R.OK("T4b-trim-first", cons, p.InstrPos(call), "text is trimmed first")
+				}
+			}
+		}
+	}
+	c.R.Floor("T4b-trim-first", n, 14)
 }
